@@ -106,7 +106,7 @@ def expression_case(draw):
         p = draw(pointer_into(rbody)) if rbody != "<no-body>" else draw(st.sampled_from(["", "/id"]))
         return "$response.body" + ("#" + p if p or draw(st.booleans()) else "")
 
-    shape = draw(st.sampled_from(["bare", "bare", "bare", "template", "malformed", "constant"]))
+    shape = draw(st.sampled_from(["bare", "bare", "bare", "template", "malformed", "constant", "suffixed"]))
     if shape == "bare":
         expr = atom()
     elif shape == "template":
@@ -122,6 +122,12 @@ def expression_case(draw):
         expr = "".join(parts)
     elif shape == "malformed":
         expr = draw(st.sampled_from(MALFORMED))
+    elif shape == "suffixed":
+        # a parameter reference whose name runs on (`name = *CHAR`): it names a parameter the exchange does not have, or is
+        # rejected - it never is the value of the shorter name with the rest glued on
+        expr = draw(st.sampled_from(["$request.path.id", "$request.query.q", "$request.header.X-H", "$response.header.Location", "$response.header.X-Id"])) + draw(st.sampled_from([".value", "$method", ".a.b", "{x}", ".0"]))
+        if "{" not in expr and draw(st.booleans()):
+            expr = "id-{" + expr + "}"
     else:
         expr = draw(st.sampled_from(["literal", "", "42", "a.b", "with space"]))
     return {"exchange": ex, "expr": expr}
@@ -216,6 +222,11 @@ def check_expression(ctx: Ctx, inp) -> None:
     if "~" in expr:
         classes.append("pointer-escape")
     ctx.case(nontrivial=inp if nontrivial else None, classes=classes, sample={"expr": expr, "exchange": ex, "expected": repr(expected)})
+    if re.search(r"\$(request\.(path\.id|query\.q|header\.X-H)|response\.header\.(Location|X-Id))(\.value|\$method|\.a\.b|\{x\}|\.0)", expr):
+        ctx.classes["suffixed-parameter-reference"] += 1
+        if raised is None and got is not rex.UNRES and not (isinstance(got, str) and "{" not in expr and got == expr):
+            ctx.disagree("suffixed-parameter-reference-evaluated", f"{expr!r} names no parameter of the exchange but evaluates to {got!r}", input=inp)
+        return
     if malformed:
         if raised is None and got is rex.UNRES:
             ctx.inconclusive_case("ill-formed expression evaluated to 'unresolvable' (no value is passed on)")
